@@ -148,11 +148,19 @@ FilteredData(c, fs, D, glo, ghi) ==
          IN  UNION {{d \in cand(g) : KeepsF(f.op, fld, cand(g), d)} : g \in {d[1] : d \in D}}
 \* What the documentation does not fix (left open, never judged): several filters meeting in one clause or one
 \* binding in both filterable positions of a clause (rejected or resolved arbitrarily), a filter binding in a
-\* position no filter applies to, a filtered clause that is fully specified (no lookup is made) or carries its own
+\* position no filter applies to, a filtered clause that is or may become fully specified (no lookup is made) or carries its own
 \* time bounds (they narrow the window of the lookup), and `latest` on a clause that shares a binding with an
 \* earlier clause (the lookup is then specialised per row, so "the lookup's candidates" depend on the plan).
+\* clause i is written with a constant or an already bound name in each of its three positions: while joining it
+\* becomes a fully specified triple, which is looked up with an existence test that takes no filter
+MaySpecify(cs, i) ==
+    LET c == cs[i]  prev == UNION {ClauseNames(cs[k]) : k \in 1..(i - 1)} IN
+    /\ (c.s.c # 0 \/ {c.s.b, c.s.as} \cap prev # {})
+    /\ (c.p.c # 0 \/ {c.p.b, c.p.as} \cap prev # {} \/ (c.p.pid # 0 /\ c.p.ab \in prev))
+    /\ (c.o.ck # "" \/ {c.o.b, c.o.as} \cap prev # {} \/ (c.o.pid # 0 /\ c.o.ab \in prev))
 FilterOpen(cs, fs) ==
     \/ \E i \in DOMAIN cs : Cardinality(ClauseFilters(cs[i], fs)) > 1
+    \/ \E i \in DOMAIN cs, k \in DOMAIN fs : ClauseField(cs[i], fs[k]) # "" /\ MaySpecify(cs, i)
     \/ \E i \in DOMAIN cs, k \in DOMAIN fs :
           LET c == cs[i]  b == fs[k].b IN
           \/ (b \in {c.p.b, c.p.as} /\ b \in {c.o.b, c.o.as})
